@@ -181,6 +181,9 @@ def gen_cases(run):
             "2562047788015216", "153722867280912930", "153722867280912931", "9223372036854775807", "9223372036854775808",
             "18446744073709551615", "18446744073709551616", "18446744073709551617", "99999999999999999",
             "340282366920938463463374607431768211456", "9223372036854775807.999999999", "9223372036854775807999"]
+    # the largest whole count of each unit that fits 2^63 seconds, with fractions that stay below and that pass the limit
+    for w in ("106751991167300", "2562047788015215", "153722867280912930", "9223372036854775807", "9223372036854775807999"):
+        nums += [w + f for f in (".1", ".5", ".6", ".7", ".9", ".999999999999999")]
     # fractions around the 15-digit limit, with and without trailing zeros (how many digits count is the written length)
     for ln in (14, 15, 16, 17, 20, 40):
         nums += ["1.5" + "0" * (ln - 1), "0." + "0" * ln, "2." + "0" * (ln - 1) + "1", "3." + "".join(str((7 * i + 3) % 10) for i in range(ln))]
@@ -265,7 +268,11 @@ def gen_cases(run):
         cases.append(Case("bool", prog_init("BOOL", lit), ("const", {"kind": "bool", "value": v}), note="bool-digit"))
     # ---- direct addresses -------------------------------------------------------------------
     comps_list = [["0"], ["1"], ["9"], ["10"], ["123"], ["1", "2"], ["10", "25"], ["1", "2", "3"], ["100", "200", "300"], ["4294967295"],
-                  ["4294967296"], ["1", "99999999999999999999"], ["007"]]
+                  ["4294967296"], ["1", "99999999999999999999"], ["007"],
+                  # components written with more digits than the limit has: leading zeros (a small value), values whose first ten
+                  # digits would fit, and such a component in front of further ones
+                  ["00000000001"], ["000000000000000000004294967295"], ["00000000004294967296"], ["18446744073709551616"],
+                  ["12345678901"], ["1", "18446744073709551616", "3"], ["1", "2", "12345678901"], ["0000000000"], ["1", "00000000002", "3"]]
     for loc in "IQM":
         for size in ("", "X", "B", "W", "D", "L"):
             for comps in comps_list:
